@@ -797,7 +797,18 @@ class TaskGroup(abc.TaskGroup):
                 if not self._tasks:
                     # If there are no child tasks to wait on, run at least one checkpoint
                     # anyway
-                    await AsyncIOBackend.cancel_shielded_checkpoint()
+                    try:
+                        await AsyncIOBackend.cancel_shielded_checkpoint()
+                    except CancelledError as exc:
+                        # A native cancellation got through the shield. Any task that
+                        # was started during the checkpoint still has to be waited on
+                        # below, so handle this the same way as in the wait loop.
+                        self.cancel_scope.cancel()
+                        if exc_val is None or (
+                            isinstance(exc_val, CancelledError)
+                            and not is_anyio_cancellation(exc)
+                        ):
+                            exc_val = exc
 
                 if self._tasks:
                     with CancelScope() as wait_scope:
